@@ -7,7 +7,8 @@ From Coq Require Import String.
 From Aelys Require Import Extracted.ValueConsts Extracted.Opcodes Model.Value Model.VmArith Proofs.FoldVmProofs.
 From Aelys Require Import Base.Tactics Model.Lang Model.Eval Extracted.OptConsts Model.Opt.Fold
   Model.PureEval Proofs.EvalProofs Proofs.FoldProofs Proofs.PureProofs Proofs.EvalMono Proofs.FoldEvalProofs
-  Proofs.ValueMap Proofs.FoldSim Proofs.FoldSimExpr Model.Opt.Dce Proofs.DceEval Proofs.DceSim Proofs.DceSim2.
+  Proofs.ValueMap Proofs.FoldSim Proofs.FoldSimExpr Model.Opt.Dce Proofs.DceEval Proofs.DceSim Proofs.DceSim2
+  Model.Opt.Unused Proofs.UnusedProofs.
 Local Open Scope Z_scope.
 
 (* whenever the folder replaces `a op b` by a literal, that literal is exactly the value the
@@ -206,6 +207,81 @@ Example C01_dce_nonvacuous :
   /\ run_program 400 p = mkOutcome OcOk (sb [49; 10; 110; 117; 108; 108; 10]%nat) "3"
   /\ run_program 400 (dce_program (fun _ => false) p) = run_program 400 p.
 Proof. vm_compute. repeat split; try reflexivity. discriminate. Qed.
+
+(* ------------------------------------------------------------------ unused-variable elimination *)
+(* Model/Opt/Unused.v transcribes opt/src/passes/unused_vars (the read-set analysis, the
+   `has_side_effects` gate, `retain` with its keep-the-last rule, the per-function read set); on
+   every run the tie checks that the model produces exactly the real pass's output.
+   (1) Every program, every nesting depth: the pass performs only deletions the declarative
+   specification [ElimL] permits - a `let` that is not the last statement of its block, whose
+   name is in no read position of the whole program and whose initializer passes the gate. *)
+Theorem C01_unused_only_permitted_deletions : forall p : program,
+  ElimL (uses_block p) p (unused_program p).
+Proof. exact unused_program_spec. Qed.
+
+(* (2) it introduces no read, so no read of a deleted binder is left behind *)
+Theorem C01_unused_no_new_read : forall p : program,
+  incl (uses_block (unused_program p)) (uses_block p).
+Proof. exact unused_program_no_new_read. Qed.
+Theorem C01_unused_deleted_binder_is_dead : forall (p : program) (x : string),
+  mem x (uses_block p) = false -> ~ In x (uses_block (unused_program p)).
+Proof. exact deleted_binder_is_dead. Qed.
+
+(* (3) the last statement of a block (it decides the block's value) is never deleted *)
+Theorem C01_unused_keeps_last : forall used d l, last (retain used l) d = last l d.
+Proof. exact retain_last. Qed.
+
+(* (4) what the gate guarantees on the definitional evaluator, for every fuel, environment and
+   state: an initializer that passes it prints nothing, assigns no variable and no global and
+   changes no element of an existing array; it can only fail (skipping a failing unused
+   computation is the relaxation the property permits) or allocate arrays nothing refers to *)
+Theorem C01_unused_gated_initializer_is_unobservable :
+  forall fuel d env st e st' r,
+    hse e = false -> eval_expr fuel d env st e = (st', r) ->
+    cells st' = cells st /\ globals st' = globals st /\ out st' = out st /\
+    exists extra, objs st' = objs st ++ extra.
+Proof. exact gated_initializer_is_unobservable. Qed.
+Theorem C01_unused_gate_refuses_effects :
+  forall f args x a o i v, hse (ECall f args) = true /\ hse (EAssign x a) = true /\ hse (EIdxSet o i v) = true.
+Proof. exact gate_refuses_effects. Qed.
+
+(* PARTIAL: the whole-program statement `run_program fuel (unused_program p)` agrees with
+   `run_program fuel p` up to the permitted relaxation is NOT proved - it needs a simulation
+   under a renaming of cell locations (a deleted `let` shifts every later cell) through all ten
+   evaluator functions; (1)-(4) are the facts that simulation would consume, and the per-program
+   translation validation (tie (b)) covers the rest.
+   Non-vacuity: unused lets at top level, in a block, in a function and under a loop; one whose
+   initializer calls (kept), one in last position (kept), one read only inside a lambda (kept),
+   one named like a parameter of the enclosing function (kept), one failing initializer (deleted:
+   the permitted relaxation). *)
+Example C01_unused_nonvacuous :
+  let p := [SLet "a" false (EInt 1);
+            SLet "b" false (ECall (EVar "println") [EStr "b"]);
+            SLet "c" false (EBin BDiv (EInt 1) (EInt 0));
+            SLet "k" false (EInt 5);
+            SFun "f" [("n"%string, false)]
+              [SLet "n" false (EInt 2); SLet "u" false (EArr [EInt 1; EVar "n"]);
+               SLet "g" false (ELam [] [SRet (Some (EVar "k"))]);
+               SWhile (EBool false) (SBlock [SLet "w" false (EInt 3); SExpr (EVar "n")]);
+               SBlock [SLet "z" false (EInt 4); SLet "y" false (EInt 5)];
+               SRet (Some (ECall (EVar "g") []))] [];
+            SExpr (ECall (EVar "println") [ECall (EVar "f") [EInt 0]]);
+            SLet "last" false (EInt 9)] in
+  unused_program p =
+           [SLet "b" false (ECall (EVar "println") [EStr "b"]);
+            SLet "k" false (EInt 5);
+            SFun "f" [("n"%string, false)]
+              [SLet "n" false (EInt 2);
+               SLet "g" false (ELam [] [SRet (Some (EVar "k"))]);
+               SWhile (EBool false) (SBlock [SExpr (EVar "n")]);
+               SBlock [SLet "y" false (EInt 5)];
+               SRet (Some (ECall (EVar "g") []))] [];
+            SExpr (ECall (EVar "println") [ECall (EVar "f") [EInt 0]]);
+            SLet "last" false (EInt 9)]
+  /\ oc_class (run_program 400 p) = OcErr EDivZero
+  /\ oc_class (run_program 400 (unused_program p)) = OcOk
+  /\ oc_output (run_program 400 (unused_program p)) = sb [98; 10; 53; 10]%nat.
+Proof. vm_compute. repeat split; reflexivity. Qed.
 
 (* constant propagation kernel: replacing variables by the literals they are bound to is
    meaning-preserving exactly when the constant table agrees with the environment ... *)
